@@ -5,6 +5,6 @@ CONSTANTS
   Bug = {}
   Kinds <- AllKinds
   VKinds <- AllVKinds
-INVARIANTS TypeOK ServerOkImpliesClientKnewSig ServerOkImpliesTokenCurrent ServerIdentityIsSubject
-           ClientOkImpliesServerKnewSig VerifyAcceptsExactly HonestRunSucceeds EmitTrace
+INVARIANTS TypeOK ServerOkImpliesClientKnewSig ServerOkImpliesKeyHeld ServerOkImpliesTokenCurrent ServerIdentityIsSubject
+           ClientOkImpliesServerKnewSig VerifyAcceptsExactly HonestRunSucceeds PoolRuleSucceeds EmitTrace
 CHECK_DEADLOCK FALSE
